@@ -1,6 +1,6 @@
 (* Model of aiohttp/http_writer.py: header serialisation and the StreamWriter state machine.
    Definitions only (proofs live in Proofs/). *)
-From AV Require Import Lib.Base Lib.Utf8 Generated.WriterGen.
+From AV Require Import Lib.Base Lib.Utf8 Lib.BytesX Generated.WriterGen.
 Open Scope N_scope.
 
 (* ---- _safe_header / _py_serialize_headers ---- *)
@@ -41,3 +41,94 @@ Fixpoint split_crlf_aux (cur : bytes) (s : bytes) : list bytes :=
     end
   end.
 Definition split_crlf (s : bytes) : list bytes := split_crlf_aux [] s.
+
+(* ====================================================================================
+   StreamWriter (http_writer.py): write_headers / send_headers / write / write_eof / set_eof,
+   enable_chunking, length.  No compression here (compression is the abstract codec of C09).
+   Output = the concatenation of what reaches transport.write. *)
+
+Record wstate := mkW {
+  w_length : option N;        (* self.length *)
+  w_chunked : bool;
+  w_hbuf : option bytes;      (* self._headers_buf *)
+  w_hwritten : bool;          (* self._headers_written *)
+  w_eof : bool }.
+
+Definition winit : wstate := mkW None false None false false.
+
+Inductive wop :=
+| WHeaders (buf : bytes)      (* write_headers with an already serialised head *)
+| WSendHeaders
+| WWrite (d : bytes)
+| WEof (d : bytes)            (* write_eof(chunk) *)
+| WSetEof
+| WEnableChunking
+| WSetLength (n : option N).
+
+Definition truthy (b : option bytes) : bool := match b with Some (_ :: _) => true | _ => false end.
+Definition hb (b : option bytes) : bytes := match b with Some x => x | None => [] end.
+
+Definition chunk_enc (d : bytes) : bytes := to_hex (lenN d) ++ CRLF ++ d ++ CRLF.
+Definition last_chunk : bytes := [48; 13; 10; 13; 10].   (* "0\r\n\r\n" *)
+
+(* _send_headers_with_payload(chunk, is_eof) *)
+Definition send_headers_with_payload (s : wstate) (chunk : bytes) (is_eof : bool) : wstate * bytes :=
+  let s' := mkW (w_length s) (w_chunked s) None true (w_eof s) in
+  let h := hb (w_hbuf s) in
+  if negb (w_chunked s) then (s', h ++ chunk)
+  else match chunk with
+       | _ :: _ => (s', h ++ to_hex (lenN chunk) ++ CRLF ++ chunk ++ CRLF ++ (if is_eof then last_chunk else []))
+       | [] => (s', h ++ (if is_eof then last_chunk else []))
+       end.
+
+Definition set_eofb (s : wstate) (b : bool) : wstate :=
+  mkW (w_length s) (w_chunked s) (w_hbuf s) (w_hwritten s) b.
+
+Definition wstep (s : wstate) (op : wop) : wstate * bytes :=
+  match op with
+  | WHeaders buf => (mkW (w_length s) (w_chunked s) (Some buf) false (w_eof s), [])
+  | WSendHeaders =>
+    if negb (truthy (w_hbuf s)) || w_hwritten s then (s, [])
+    else (mkW (w_length s) (w_chunked s) None true (w_eof s), hb (w_hbuf s))
+  | WEnableChunking => (mkW (w_length s) true (w_hbuf s) (w_hwritten s) (w_eof s), [])
+  | WSetLength n => (mkW n (w_chunked s) (w_hbuf s) (w_hwritten s) (w_eof s), [])
+  | WWrite d =>
+    (* the declared length truncates what is written *)
+    let '(len', chunk, stop) :=
+      match w_length s with
+      | None => (None, d, false)
+      | Some l => if lenN d <=? l then (Some (l - lenN d), d, false)
+                  else let c := fst (takeN l d) in (Some 0, c, match c with [] => true | _ => false end)
+      end in
+    let s1 := mkW len' (w_chunked s) (w_hbuf s) (w_hwritten s) (w_eof s) in
+    if stop then (s1, [])
+    else if truthy (w_hbuf s1) && negb (w_hwritten s1) then send_headers_with_payload s1 chunk false
+    else match chunk with
+         | [] => (s1, [])
+         | _ :: _ => if w_chunked s1 then (s1, chunk_enc chunk) else (s1, chunk)
+         end
+  | WEof d =>
+    if w_eof s then (s, [])
+    else if truthy (w_hbuf s) && negb (w_hwritten s) then
+      let '(s', out) := send_headers_with_payload s d true in (set_eofb s' true, out)
+    else if w_chunked s then
+      (set_eofb s true, match d with [] => last_chunk | _ => to_hex (lenN d) ++ CRLF ++ d ++ CRLF ++ last_chunk end)
+    else (set_eofb s true, d)
+  | WSetEof =>
+    if w_eof s then (s, [])
+    else if truthy (w_hbuf s) && negb (w_hwritten s) then
+      (mkW (w_length s) (w_chunked s) None true true,
+       hb (w_hbuf s) ++ (if w_chunked s then last_chunk else []))
+    else if w_chunked s && w_hwritten s then (set_eofb s true, last_chunk)
+    else (set_eofb s true, [])
+  end.
+
+Fixpoint wrun (s : wstate) (ops : list wop) : wstate * bytes :=
+  match ops with
+  | [] => (s, [])
+  | op :: ops' => let '(s1, o1) := wstep s op in let '(s2, o2) := wrun s1 ops' in (s2, o1 ++ o2)
+  end.
+
+(* data handed to write()/write_eof() by an op sequence, as truncated by the declared length *)
+Definition op_data (op : wop) : bytes :=
+  match op with WWrite d | WEof d => d | _ => [] end.
